@@ -314,6 +314,8 @@ def check_annotations(type_: type, node_base_type: type) -> bool:
             if is_classvar(field_type) or is_initvar(field_type) or is_dataclass_kw_only(type_):
                 continue
 
+            field_type = _unwrap_newtypes_deep(field_type)
+
             if has_check_type_in_type(field_type, node_base_type):
                 # Possible child field
                 res = is_valid_child_field_type(field_type, node_base_type)
@@ -357,6 +359,29 @@ def get_type_info(type_: Any, allow_sequence: bool = True) -> FieldTypeInfo:
     return FieldTypeInfo(is_collection(type_), type_)
 
 
+def _unwrap_newtypes_deep(type_: Any) -> Any:
+    """Replace every NewType in the annotation, however deeply nested, with its
+    underlying type, e.g. tuple[MyNode, ...] -> tuple[Node, ...]."""
+    if is_new_type(type_):
+        return _unwrap_newtypes_deep(unwrap_newtype(type_))
+
+    args = get_args(type_)
+    if not args or is_literal(type_):
+        return type_
+
+    new_args = tuple(_unwrap_newtypes_deep(a) for a in args)
+    if all(n is a for n, a in zip(new_args, args)):
+        return type_
+
+    if is_union(type_):
+        return Union[new_args]
+
+    try:
+        return get_origin(type_)[new_args]
+    except TypeError:
+        return type_
+
+
 def _has_forward_ref(type_: Any) -> bool:
     """Return True if the annotation is, or contains, an unresolved (string)
     reference."""
@@ -386,9 +411,8 @@ def get_field_types(type_: type[DataclassInstance]) -> dict[Field, Any]:
         if f_type is None:
             raise RuntimeError(f"Could not determine type of field {field.name} for type {type_}")
 
-        # Unwrap newtypes to not deal with them later
-        if is_new_type(f_type):  # type: ignore[arg-type]
-            f_type = unwrap_newtype(f_type)  # type: ignore[arg-type]
+        # Unwrap newtypes (at any depth) to not deal with them later
+        f_type = _unwrap_newtypes_deep(f_type)
 
         ret[field] = f_type
 
